@@ -272,11 +272,11 @@ TEXT ·Ger(SB), NOSPLIT, $0
 	NEGQ    TMP1
 	CMPQ    INC_X, $0
 	CMOVQLT TMP1, TMP2
-	LEAQ    (X_PTR)(TMP2*SIZE), X_PTR
+	LEAQ    (X_PTR)(TMP2*1), X_PTR
 
 	CMPQ incY+80(FP), $1 // Check for dense vector Y (fast-path)
 	JG   inc
-	JL   end
+	JL   inc
 
 	SHRQ $2, M
 	JZ   r2
@@ -441,7 +441,8 @@ inc:  // Algorithm for incY != 1 ( split loads in kernel )
 	NEGQ    TMP1
 	CMPQ    INC_Y, $0
 	CMOVQLT TMP1, TMP2
-	LEAQ    (Y_PTR)(TMP2*SIZE), Y_PTR
+	LEAQ    (Y_PTR)(TMP2*1), Y_PTR
+	MOVQ    Y_PTR, Y                  // Store the start of y for the following rows.
 
 	SHRQ $2, M
 	JZ   inc_r2
